@@ -46,8 +46,25 @@ def exhaustive(ctx, tier):
     from xfab import symmetry
     n_ops = 0
     for k in range(1, 8):
-        case = {"exhaustive-system": k}
-        ctx.begin(case)
+        ctx.begin({"exhaustive-system": k})
+        n_ops += exhaustive_one(ctx, k)
+    ctx.begin({"exhaustive-system": 0})
+    for bad in (0, 8, -1, 100):
+        for fn in (symmetry.permutations, symmetry.rotations):
+            try:
+                fn(bad)
+                ctx.fail("out-of-range-accepted", "%s(%d) did not raise ValueError" % (fn.__name__, bad))
+            except ValueError:
+                pass
+    ctx.extra["exhaustive_operator_pairs"] = n_ops
+
+
+def exhaustive_one(ctx, k):
+    from xfab import symmetry
+    n_ops = 0
+    if k == 0:
+        return 0
+    for _ in (0,):
         P = np.asarray(symmetry.permutations(k), float)
         R = np.asarray(symmetry.rotations(k), float)
         N = ORDERS[k]
@@ -80,18 +97,14 @@ def exhaustive(ctx, tier):
         if C.shape != R.shape or O.maxabs(C - R) > 0:
             ctx.fail("cache/%d" % k, "ROTATIONS[%d] differs from rotations(%d)" % (k, k))
         ctx.nontrivial(True, key=("exh", k))
-    for bad in (0, 8, -1, 100):
-        for fn in (symmetry.permutations, symmetry.rotations):
-            try:
-                fn(bad)
-                ctx.fail("out-of-range-accepted", "%s(%d) did not raise ValueError" % (fn.__name__, bad))
-            except ValueError:
-                pass
-    ctx.extra["exhaustive_operator_pairs"] = n_ops
+    return n_ops
 
 
 def check(case, ctx):
     from xfab import symmetry, tools, laue
+    if "exhaustive-system" in case:
+        exhaustive_one(ctx, case["exhaustive-system"])
+        return
     k = case["sys"]
     N = ORDERS[k]
     U1 = S.build_rotation(case["u1"]) + 0.0
